@@ -239,43 +239,50 @@ def run(chk, tier):
                 chk.fail('O3', inst, loc(t['sp']), 'the write guard does not cover the call to %s' % short(callee), key='O3|guard-range|' + inst)
     if ncalls < 2:
         chk.fail('O3', 'coverage', '?', 'only %d external &mut State calls found (expected the handler and handle_error)' % ncalls, key='O3|coverage')
-    fh = prog.find(r'TracerInner::handler$')
-    ufr = [short(t['term']['resolved'] or t['term']['callee']) for t in fh['blocks'] if t['term']['k'] == 'call' and not t['cleanup']]
-    if ufr.count('State::update_from_round') == 1:
-        chk.ok('O3', 'handler:update-once', ufr)
-    else:
-        chk.fail('O3', 'handler:update-once', fn_loc(fh), 'handler calls update_from_round %d times' % ufr.count('State::update_from_round'), key='O3|handler|update-once')
+    # the round handler may be a method of TracerInner or written directly in the publish closure: what is decided is the application of the round
+    # (the State::update_from_round call), through at most one TracerInner method
+    UFR = 'State::update_from_round'
+    calls_of = lambda f_: [(b_['term']['resolved'] or b_['term']['callee']) for b_ in f_['blocks'] if b_['term']['k'] == 'call' and not b_['cleanup']]
+    appliers = [p_ for p_, f_ in prog.fns.items() if f_['crate'] == 'core' and '::tests' not in p_ and any(short(c_) == UFR for c_ in calls_of(f_))]
+    helpers = [p_ for p_ in appliers if prog.fns[p_]['kind'] != 'Closure' and TI in p_]
+    for hp in helpers:
+        ufr = [short(c_) for c_ in calls_of(prog.fns[hp])]
+        if ufr.count(UFR) == 1:
+            chk.ok('O3', 'handler:update-once', ufr)
+        else:
+            chk.fail('O3', 'handler:update-once', fn_loc(prog.fns[hp]), '%s calls update_from_round %d times' % (short(hp), ufr.count(UFR)), key='O3|handler|update-once')
 
     # ---- O4 ---------------------------------------------------------------------------------------------
     fri = prog.find(r'TracerInner::run_internal$')
     cls = [c for c in prog.fns.values() if c.get('parent') == fri['path'] and c['kind'] == 'Closure']
     good = False
     for c in cls:
-        names = [short(b['term']['resolved'] or b['term']['callee']) for b in c['blocks'] if b['term']['k'] == 'call' and not b['cleanup']]
-        if names.count('TracerInner::handler') == 1:
-            # the closure is the one handed to Strategy::new: on *every* abstract trace it hands the round it was given to handler exactly once
-            e4 = Engine(prog, inline_depth=0)
+        names = calls_of(c)
+        if sum(1 for n_ in names if short(n_) == UFR or n_ in helpers) >= 1:
+            # the closure is the one handed to Strategy::new: on *every* abstract trace it applies the round it was given exactly once
+            e4 = Engine(prog, inline_depth=1, inline_filter=lambda callee: callee in helpers)
             st4 = St()
             o4 = e4.run(c, [e4.sym_ref(st4, 'env'), e4.sym_ref(st4, 'round')], st4)
             every = bool(o4)
             for o_ in o4:
-                hs = [h for h in user_calls(o_, r'TracerInner::handler$')]
+                hs = [h for h in user_calls(o_, r'State::update_from_round$')]
                 if o_.kind != 'return' or len(hs) != 1 or vshow(hs[0][7][1]) != 'round':
                     every = False
             if every:
                 good = True
-                chk.ok('O4', 'publish-closure', 'handler(round) exactly once on each of %d traces' % len(o4))
+                chk.ok('O4', 'publish-closure', 'update_from_round(round) exactly once on each of %d traces' % len(o4))
             else:
-                chk.fail('O4', 'publish-closure:every-trace', fn_loc(fri), 'the publish closure of run_internal applies a published round to the shared state only on some paths (%s): snapshots would omit rounds the strategy published' % (
-                    [[(vshow(a)[:60], v) for a, v, _ in o_.st.decisions] for o_ in o4 if len(user_calls(o_, r'TracerInner::handler$')) != 1][:2],), key='O4|publish-closure|conditional')
+                chk.fail('O4', 'publish-closure:every-trace', fn_loc(fri), 'the publish closure of run_internal applies a published round to the shared state only on some paths, or more than once (%s): snapshots would omit or repeat rounds the strategy published' % (
+                    [[(vshow(a)[:60], v) for a, v, _ in o_.st.decisions] for o_ in o4 if len(user_calls(o_, r'State::update_from_round$')) != 1][:2],), key='O4|publish-closure|conditional')
                 good = True
     if not good:
-        chk.fail('O4', 'publish-closure', fn_loc(fri), 'the publish closure of run_internal does not call handler exactly once', key='O4|publish-closure')
-    hc = [c for c in cg.callers(fh['path'])]
-    if all(prog.fns[c].get('parent') == fri['path'] for c in hc) and len(hc) == 1:
-        chk.ok('O4', 'handler-callers', [short(c) for c in hc])
+        chk.fail('O4', 'publish-closure', fn_loc(fri), 'the publish closure of run_internal does not apply the round (State::update_from_round, directly or through one TracerInner method)', key='O4|publish-closure')
+    # who applies rounds: the publish closure alone (directly or through its helper)
+    hc = sorted(set(c_ for hp in helpers for c_ in cg.callers(hp)) | set(p_ for p_ in appliers if p_ not in helpers))
+    if hc and all(prog.fns[c_].get('parent') == fri['path'] and prog.fns[c_]['kind'] == 'Closure' for c_ in hc) and len(hc) == 1:
+        chk.ok('O4', 'handler-callers', [short(c_) for c_ in hc])
     else:
-        chk.fail('O4', 'handler-callers', fn_loc(fh), 'handler is called from %s' % [short(c) for c in hc], key='O4|handler-callers')
+        chk.fail('O4', 'handler-callers', fn_loc(fri), 'rounds are applied to the shared state from %s (expected the publish closure of run_internal only)' % [short(c_) for c_ in hc], key='O4|handler-callers')
 
     # ---- O5 ---------------------------------------------------------------------------------------------
     fs = prog.find(r'TracerInner::snapshot$')
@@ -344,6 +351,10 @@ def run(chk, tier):
                 gc = guard_chain(fc, st_['lhs']['l'], 'write')
                 src = op_place(st_['rv']['a'])
                 d = def_of(fc, src['l']) if src else None
+                for _ in range(4):
+                    # the fresh value may be named first (`let fresh = State::new(..); *guard = fresh`): follow plain moves
+                    if d and d[0] == 'stmt' and d[1]['k'] == 'use' and op_place(d[1]['a']) and not op_place(d[1]['a'])['p']:
+                        d = def_of(fc, op_place(d[1]['a'])['l'])
                 if gc and d and d[0] == 'call' and (d[1]['resolved'] or d[1]['callee']).endswith('state::State::new'):
                     ok = True
     if ok:
